@@ -367,6 +367,73 @@ example : cartTensorDivergence .central [(1/2 : ℚ), 1/4, 2]
   simp [dquartic, coef5, dpoly4]
   norm_num
 
+/-- **one-sided Cartesian divergence, any number of axes** (`forward`): first order, remainder `Σ_k dx_k·E_k` -/
+theorem cartDivergence_forward_poly_nd (dxs : List K) (a : Arr K) (pre sp : List Int) (ξ : Nat → K) (c : Nat → Nat → K)
+    (hdx : ∀ k, k < dxs.length → dxs.getD k 1 ≠ 0)
+    (hq : ∀ k, k < dxs.length →
+      QuarticLine a (pre ++ [(k:Int)] ++ sp) (pre.length + 1 + k) (dxs.getD k 1) (ξ k) (c k)) :
+    cartDivergence .forward dxs a pre sp =
+      lsum ((List.range dxs.length).map fun k => dquartic (c k) (ξ k))
+        + lsum ((List.range dxs.length).map fun k => dxs.getD k 1 *
+            (c k 2 + c k 3 * dxs.getD k 1 + c k 4 * (dxs.getD k 1)^2 + 3 * c k 3 * ξ k + 6 * c k 4 * (ξ k)^2
+              + 4 * c k 4 * dxs.getD k 1 * ξ k)) := by
+  rw [← lsum_map_add]
+  unfold cartDivergence
+  apply lsum_map_congr
+  intro k hk
+  have hk' : k < dxs.length := List.mem_range.mp hk
+  have := d1_forward_line_poly a (pre ++ [(k:Int)] ++ sp) (pre.length + 1 + k) (dxs.getD k 1) (ξ k) (c k)
+    (hq k hk') (hdx k hk')
+  simpa using this
+
+/-- **one-sided Cartesian divergence, any number of axes** (`backward`) -/
+theorem cartDivergence_backward_poly_nd (dxs : List K) (a : Arr K) (pre sp : List Int) (ξ : Nat → K) (c : Nat → Nat → K)
+    (hdx : ∀ k, k < dxs.length → dxs.getD k 1 ≠ 0)
+    (hq : ∀ k, k < dxs.length →
+      QuarticLine a (pre ++ [(k:Int)] ++ sp) (pre.length + 1 + k) (dxs.getD k 1) (ξ k) (c k)) :
+    cartDivergence .backward dxs a pre sp =
+      lsum ((List.range dxs.length).map fun k => dquartic (c k) (ξ k))
+        + lsum ((List.range dxs.length).map fun k => dxs.getD k 1 *
+            (-(c k 2) + c k 3 * dxs.getD k 1 - c k 4 * (dxs.getD k 1)^2 - 3 * c k 3 * ξ k - 6 * c k 4 * (ξ k)^2
+              + 4 * c k 4 * dxs.getD k 1 * ξ k)) := by
+  rw [← lsum_map_add]
+  unfold cartDivergence
+  apply lsum_map_congr
+  intro k hk
+  have hk' : k < dxs.length := List.mem_range.mp hk
+  have := d1_backward_line_poly a (pre ++ [(k:Int)] ++ sp) (pre.length + 1 + k) (dxs.getD k 1) (ξ k) (c k)
+    (hq k hk') (hdx k hk')
+  simpa using this
+
+/-- the one- and two-axis grids are instances of the `_nd` theorems: 2-d divergence of a sampled vector field
+(`sample` = `sampleV2` of `Props/C01.lean`) with mixed terms -/
+example (x0 h z0 k a0 a1 a2 a3 a4 b0 b1 b2 b3 b4 s t : K) (i j : Int) (hh : h ≠ 0) (hk : k ≠ 0) :
+    cartDivergence .central [h, k] (sampleV2 (fun c x y => if c = 0 then poly4 a0 a1 a2 a3 a4 x + s*x^2*y else poly4 b0 b1 b2 b3 b4 y + t*x*y^3) x0 h z0 k) [] [i, j]
+      = (dpoly4 a1 a2 a3 a4 (x0 + (i:K)*h) + 2*s*(x0 + (i:K)*h)*(z0 + (j:K)*k))
+        + (dpoly4 b1 b2 b3 b4 (z0 + (j:K)*k) + 3*t*(x0 + (i:K)*h)*(z0 + (j:K)*k)^2)
+        + (h^2 * (a3 + 4*a4*(x0 + (i:K)*h)) + k^2 * ((b3 + t*(x0 + (i:K)*h)) + 4*b4*(z0 + (j:K)*k))) := by
+  have := cartDivergence_poly_nd [h, k] (sampleV2 (fun c x y => if c = 0 then poly4 a0 a1 a2 a3 a4 x + s*x^2*y else poly4 b0 b1 b2 b3 b4 y + t*x*y^3) x0 h z0 k) [] [i, j]
+    (fun ax => if ax = 0 then x0 + (i:K)*h else z0 + (j:K)*k)
+    (fun ax => if ax = 0 then coef5 a0 a1 (a2 + s*(z0 + (j:K)*k)) a3 a4 else coef5 b0 b1 b2 (b3 + t*(x0 + (i:K)*h)) b4)
+    (by intro ax hax
+        match ax, hax with
+        | 0, _ => simpa
+        | 1, _ => simpa
+        | n + 2, h => exact absurd h (by simp))
+    (by intro ax hax
+        match ax, hax with
+        | 0, _ =>
+          refine ⟨?_, ?_, ?_⟩ <;>
+            simp [sampleV2, shift, quartic, coef5, poly4] <;> push_cast <;> ring
+        | 1, _ =>
+          refine ⟨?_, ?_, ?_⟩ <;>
+            simp [sampleV2, shift, quartic, coef5, poly4] <;> push_cast <;> ring
+        | n + 2, h => exact absurd h (by simp))
+  rw [this]
+  simp [List.range_succ, lsum, dquartic, coef5, dpoly4]
+  ring
+
+
 /-! ### cylindrical grid: axes `(r, z)`, components `(r, z, φ)` -/
 
 /-- central first difference quotient of a function -/
